@@ -84,6 +84,8 @@ def gen_case(ctx, enz, q):
         rng.shuffle(feats)
         i = len(elements)
         rot = gens.pick_origin(rng, elem) if rng.random() < 0.85 else 0
+        if rng.random() < 0.2:
+            rot = (-region[0]) % n       # the origin exactly on the first nucleotide of the retained stretch
         spec = {"seq": elem["seq"], "id": "%s%d" % (kind[0], i), "name": "n%d" % i, "desc": "d", "features": feats, "refs": None}
         prerot = bool(rot) and rng.random() < 0.4
         if prerot:
@@ -107,7 +109,7 @@ def gen_case(ctx, enz, q):
                 order.append(i)
     rng.shuffle(order)
     return {"enz": enz["name"], "q": q, "elements": elements, "order": order, "expected": ch["expected"],
-            "second": rng.choice([None, None, "add", "drop"]),
+            "second": rng.choice([None, "again", "add", "drop"]),
             "id": rng.choice(["prod", "pX_1", "assembly", "A" * 15]), "name": rng.choice(["prod", "name1"])}
 
 
@@ -176,6 +178,34 @@ def c08_oracle(case, inputs, view):
     return V
 
 
+def provenance(view, inputs, ids, tag):
+    """one generated source feature per retained fragment: they tile the product, each covers a stretch that occurs
+    verbatim in the plasmid it names"""
+    W = []
+    pseq = view["seq"]
+    n = len(pseq)
+    cover = [0] * n
+    for f in view["features"]:
+        if "plasmid" not in f:
+            continue
+        pid = f["plasmid"][0] if isinstance(f["plasmid"], list) else f["plasmid"]
+        for pos, _ in _covered(f["parts"], n):
+            for x in pos:
+                cover[x] += 1
+        if pid not in ids:
+            W.append({"signature": "C09:source-names-unknown-plasmid" + tag, "what": "source feature names %r" % pid})
+            continue
+        text = _denote(pseq, [[p[0], p[1], 1] for p in f["parts"]])
+        srcseq = inputs[ids.index(pid)]["seq"]
+        if len(text) != 1 or text[0] not in srcseq * 2:
+            W.append({"signature": "C09:not-verbatim" + tag,
+                      "what": "stretch under the source feature of %s does not occur in that plasmid" % pid})
+    if any(c != 1 for c in cover):
+        W.append({"signature": "C09:sources-do-not-tile" + tag,
+                  "what": "coverage of the product by its source features: %s" % cover})
+    return W
+
+
 def run_annot(case):
     """assemble, dump inputs as given to the entities and the product; evaluate the C08 / C09 oracles"""
     import io
@@ -192,6 +222,7 @@ def run_annot(case):
     V = out["violations"]
     pseq = view["seq"]
     V.extend(c08_oracle(case, inputs, view))
+    prod2, inputs2 = None, None
     if case.get("second"):
         # the same entities again after their records were annotated further in place: the statement is about the
         # feature tables the records carry when assemble() is called
@@ -207,7 +238,9 @@ def run_annot(case):
                 if x + 2 <= n:
                     rec.features.append(SeqFeature(FeatureLocation(x, x + 2, 1), type="misc_feature",
                                                    qualifiers={"label": ["L%d" % (lab + ei)]}))
-            if rec.features and case["second"] == "drop":
+            if case["second"] == "again":
+                rec.features.pop()      # the very same inputs a second time
+            elif rec.features and case["second"] == "drop":
                 del rec.features[0]
         inputs2 = [recutil.dump_record(e.record) for e in ents]
         obs2, prod2 = implutil.observe_assembly(ents[q], [ents[i] for i in case["order"]], id=case["id"], name=case["name"])
@@ -227,23 +260,9 @@ def run_annot(case):
     ids = [e["rec"]["id"] for e in case["elements"]]
     if ids[q] not in comment or any(ids[i] not in comment for i in case["order"]):
         W.append({"signature": "C09:comment", "what": "comment %r does not name the vector and every supplied module" % comment})
-    cover = [0] * n
-    for f in view["features"]:
-        if "plasmid" not in f:
-            continue
-        pid = f["plasmid"][0] if isinstance(f["plasmid"], list) else f["plasmid"]
-        for pos, _ in _covered(f["parts"], n):
-            for x in pos:
-                cover[x] += 1
-        if pid not in ids:
-            W.append({"signature": "C09:source-names-unknown-plasmid", "what": "source feature names %r" % pid})
-            continue
-        text = _denote(pseq, [[p[0], p[1], 1] for p in f["parts"]])
-        srcseq = inputs[ids.index(pid)]["seq"]
-        if len(text) != 1 or text[0] not in srcseq * 2:
-            W.append({"signature": "C09:not-verbatim", "what": "stretch under the source feature of %s does not occur in that plasmid" % pid})
-    if any(c != 1 for c in cover):
-        W.append({"signature": "C09:sources-do-not-tile", "what": "coverage of the product by its source features: %s" % cover})
+    W.extend(provenance(view, inputs, ids, ""))
+    if case.get("second") and prod2 is not None:
+        W.extend(provenance(annot.product_view(prod2), inputs2, ids, ":second-assembly-of-the-same-records"))
     try:
         buf = io.StringIO()
         Bio.SeqIO.write(prod, buf, "genbank")
